@@ -51,7 +51,8 @@ def clause_pool(verb, rng):
         return {"at": "at " + rng.choice(["0.5", "1"]), "be": "be " + rng.choice(["active", "inactive", "slave"]),
                 "rx": "rx " + rng.choice(["127.0.0.1:55001", ":55002", "localhost"]), "tx": "tx " + rng.choice(["127.0.0.1:55003", "localhost"]),
                 "in": "in " + rng.choice(["front", "back"]), "to": "to %s/sv" % S,
-                "per": "per " + rng.choice(['stuff "5"', '"7"', "stuff 5 more 'a b'", '"false"'])}
+                "per": "per " + rng.choice(['stuff "5"', '"7"', "stuff 5 more 'a b'", '"false"']),
+                "for": "for " + rng.choice([".src", "a in .src", "a b in .src"])}
     if verb == "aux":
         return {"as": "as " + rng.choice(["mine", "klone"]), "via": "via " + rng.choice([".x.y.", "boo.", "main", "mine"])}
     if verb == "rear":
@@ -76,7 +77,7 @@ def script(verb, clauses):
     if verb == "log":
         return HEAD + "  logger lg to %s/lg\n    log l1 %s\n      loggee .c0\n  framer fx be active\n    frame a\n" % (core.SCRATCH, c)
     if verb == "server":
-        return HEAD + "  server sv %s\n  framer fx be active\n    frame a\n" % c
+        return HEAD + "  init .src with a 1 b 2\n  server sv %s\n  framer fx be active\n    frame a\n" % c
     if verb == "aux":
         return (HEAD + "  framer fx be active\n    frame a\n      aux mo %s\n  framer mo be moot via .m.\n    frame x\n      do vf rec with tag \"m\"\n" % c)
     if verb == "rear":
